@@ -111,17 +111,24 @@ void run_l1(const Scenario& s, Outcome& o)
    const std::string path = g_fsdir + "/input.in";
    switch (s.src) {
    case SRC_STDIN: source = "-"; break;
-   case SRC_PATH: { FILE* f = std::fopen(path.c_str(), "wb"); if (f) { std::fwrite(s.doc.data(), 1, s.doc.size(), f); std::fclose(f); } source = path; } break;
+   case SRC_PATH: source = path; break;
    case SRC_MISSING: source = g_fsdir + "/does-not-exist.in"; break;
    case SRC_DIR: source = g_fsdir; break;
    case SRC_EMPTYNAME: source = ""; break;
    case SRC_NONE: break;
    case SRC_MISSING_LONG: source = g_fsdir + "/" + s.longname; break;
    }
+   const bool have_file = s.src == SRC_PATH || s.materialise_file;
+   if (have_file) { FILE* f = std::fopen(path.c_str(), "wb"); if (f) { std::fwrite(s.doc.data(), 1, s.doc.size(), f); std::fclose(f); } }
+   auto resolve = [&](std::string a) {
+      for (const auto& kv : {std::make_pair(std::string("<FILE>"), path), std::make_pair(std::string("<MISSING>"), g_fsdir + "/does-not-exist.in"), std::make_pair(std::string("<DIR>"), g_fsdir)}) {
+         size_t p; while ((p = a.find(kv.first)) != std::string::npos) a.replace(p, kv.first.size(), kv.second);
+      }
+      return a; };
    std::vector<std::string> args = {"gm2calc.x"};
-   for (auto& a : s.pre_args) args.push_back(a);
+   for (auto& a : s.pre_args) args.push_back(resolve(a));
    if (s.src != SRC_NONE) args.push_back("--" + s.type + "-input-file=" + source);
-   for (auto& a : s.post_args) args.push_back(a);
+   for (auto& a : s.post_args) args.push_back(resolve(a));
    std::vector<const char*> argv;
    for (auto& a : args) argv.push_back(a.c_str());
    argv.push_back(nullptr);
@@ -151,7 +158,7 @@ void run_l1(const Scenario& s, Outcome& o)
    std::cin.clear(); std::cout.clear(); std::cerr.clear();
    o.out.swap(out.data); o.err.swap(err.data);
    o.in_failed = in.failed; o.out_failed = out.failed; o.err_failed = err.failed; o.underflows = in.underflows; o.consumed = in.pos;
-   if (s.src == SRC_PATH) std::remove(path.c_str());
+   if (have_file) std::remove(path.c_str());
 }
 
 // ------------------------------------------------------------------ oracle
@@ -501,6 +508,31 @@ struct ArgLenSpace {
 };
 ArgLenSpace g_arglen;
 
+/// every command line of up to three atoms of CMD_ATOMS (N + N^2 + N^3 sequences); the input document is the shipped
+/// example of the type named by the first input option (stdin and the simulated file hold the same bytes)
+struct CmdLineSpace {
+   size_t total = 0;
+   void build() { const size_t n = N_ATOMS; total = n + n * n + n * n * n; }
+   std::vector<std::string> plan(size_t idx) const
+   {
+      if (idx >= total) return {};
+      const size_t n = N_ATOMS;
+      std::vector<size_t> seq;
+      if (idx < n) seq = {idx};
+      else if (idx < n + n * n) { idx -= n; seq = {idx / n, idx % n}; }
+      else { idx -= n + n * n; seq = {idx / (n * n), (idx / n) % n, idx % n}; }
+      std::string sfx = "slha";
+      for (size_t a : seq) { const std::string at = CMD_ATOMS[a]; if (at.find("--gm2calc-input-file=") == 0) { sfx = "gm2"; break; } if (at.find("--thdm-input-file=") == 0) { sfx = "thdm"; break; } if (at.find("--slha-input-file=") == 0) break; }
+      std::string base;
+      for (auto& f : g_corpus.files) if (f.rel.find("/input/example." + sfx) != std::string::npos) base = f.rel;
+      if (base.empty()) base = g_corpus.files[0].rel;
+      std::vector<std::string> p = {"base corpus " + base, "src none"};
+      for (size_t a : seq) p.push_back("rawarg " + std::to_string(a));
+      return p;
+   }
+};
+CmdLineSpace g_cmdline;
+
 /// boundary documents: (a) one CR / NUL inserted at every offset of the three example files, (b) the examples padded
 /// to 64 KiB with one special byte written at every offset 2^k-2 .. 2^k+1 (k = 8..16: where block-wise readers end a
 /// buffer), (c) a curated list of edge documents (DOS/Mac line endings, torn between CR and LF, no final newline,
@@ -562,6 +594,7 @@ std::vector<std::string> plan_of(const std::string& kind, uint64_t seed, uint64_
    if (kind == "CONFIG") return g_config.plan(idx);
    if (kind == "CONFIGQ") return g_configq.plan(idx);
    if (kind == "ARGLEN") return g_arglen.plan(idx);
+   if (kind == "CMDLINE") return g_cmdline.plan(idx);
    if (kind == "SCALE") return g_scale.plan(idx);
    if (kind == "SCALEQ") return g_scaleq.plan(idx);
    if (kind == "BOUNDARY") return g_boundary.plan(idx);
@@ -581,7 +614,7 @@ int main(int argc, char** argv)
    g_fsdir = argv[3];
    mkdir(g_fsdir.c_str(), 0755);
    if (g_corpus.files.empty()) { std::printf("NOTE empty corpus\n"); }
-   g_prefix.build(false); g_prefixq.build(true); g_token.build(false); g_tokenq.build(true); g_config.build(false); g_configq.build(true); g_arglen.build(); g_boundary.build(); g_scale.build(false); g_scaleq.build(true);
+   g_prefix.build(false); g_prefixq.build(true); g_token.build(false); g_tokenq.build(true); g_config.build(false); g_configq.build(true); g_arglen.build(); g_cmdline.build(); g_boundary.build(); g_scale.build(false); g_scaleq.build(true);
 
    // calibrate the logical step budget on the intact corpus of the current tree
    // (in a forked child: the worker itself must not have executed the program before its first run, so that a plan
@@ -616,7 +649,7 @@ int main(int argc, char** argv)
    while (sim::read_line(line)) {
       const auto t = sim::split(line);
       if (t.empty()) continue;
-      if (t[0] == "RUNS" || t[0] == "LIGHT" || t[0] == "PREFIX" || t[0] == "PREFIXQ" || t[0] == "TOKEN" || t[0] == "TOKENQ" || t[0] == "CONFIG" || t[0] == "CONFIGQ" || t[0] == "ARGLEN" || t[0] == "BOUNDARY" || t[0] == "SCALE" || t[0] == "SCALEQ" || t[0] == "CORPUS") {
+      if (t[0] == "RUNS" || t[0] == "LIGHT" || t[0] == "PREFIX" || t[0] == "PREFIXQ" || t[0] == "TOKEN" || t[0] == "TOKENQ" || t[0] == "CONFIG" || t[0] == "CONFIGQ" || t[0] == "ARGLEN" || t[0] == "CMDLINE" || t[0] == "BOUNDARY" || t[0] == "SCALE" || t[0] == "SCALEQ" || t[0] == "CORPUS") {
          const bool rnd = t[0] == "RUNS" || t[0] == "LIGHT";
          if (t.size() < (rnd ? 4u : 3u)) { std::printf("NOTE malformed command: %s\nDONE\n", line.c_str()); continue; }
          const uint64_t seed = rnd ? std::strtoull(t[1].c_str(), nullptr, 0) : 0;
@@ -640,7 +673,7 @@ int main(int argc, char** argv)
          g_hash_all = t.size() > 1 && t[1] != "0";
          std::printf("DONE\n");
       } else if (t[0] == "COUNT") {
-         std::printf("COUNT CONFIG %zu\nCOUNT CONFIGQ %zu\nCOUNT ARGLEN %zu\nCOUNT BOUNDARY %zu\nCOUNT EDGE %zu\nCOUNT SCALE %zu\nCOUNT SCALEQ %zu\n", g_config.total, g_configq.total, g_arglen.total, g_boundary.total, g_boundary.edge.size(), g_scale.total, g_scaleq.total);
+         std::printf("COUNT CONFIG %zu\nCOUNT CONFIGQ %zu\nCOUNT ARGLEN %zu\nCOUNT BOUNDARY %zu\nCOUNT EDGE %zu\nCOUNT SCALE %zu\nCOUNT SCALEQ %zu\nCOUNT CMDLINE %zu\n", g_config.total, g_configq.total, g_arglen.total, g_boundary.total, g_boundary.edge.size(), g_scale.total, g_scaleq.total, g_cmdline.total);
          std::printf("COUNT PREFIX %zu\nCOUNT PREFIXQ %zu\nCOUNT TOKEN %zu\nCOUNT TOKENQ %zu\nCOUNT CORPUS %zu\nBUDGET %" PRIu64 " %" PRIu64 "\nDONE\n",
                      g_prefix.total, g_prefixq.total, g_token.total, g_tokenq.total, 2 * g_corpus.files.size(), g_budget, max_steps);
       } else if (t[0] == "DUMP" && t.size() >= 4) {
@@ -659,8 +692,10 @@ int main(int argc, char** argv)
             std::string meta = "type " + s.type + "\nsrc " + std::to_string((int)s.src) + "\nstatus " + std::to_string(rr.status) + "\nchunk " + std::to_string(s.chunk_seed) + " " + std::to_string(s.chunk_max) +
                                "\nreaderr " + std::to_string(s.readerr) + "\neintr " + std::to_string(s.eintr) + "\nsinkfail_out " + std::to_string(s.sinkfail_out) + "\nsinkfail_err " + std::to_string(s.sinkfail_err) + "\n";
             if (s.src == SRC_MISSING_LONG) meta += "longname " + s.longname + "\n";
-            for (auto& a : s.pre_args) meta += "prearg " + a + "\n";
-            for (auto& a : s.post_args) meta += "postarg " + a + "\n";
+            if (s.materialise_file) meta += "materialise 1\n";
+            auto esc = [](const std::string& a) { std::string o; for (char c : a) { if (c == '\\') o += "\\\\"; else if (c == '\n') o += "\\n"; else o += c; } return o; };
+            for (auto& a : s.pre_args) meta += "prearg " + esc(a) + "\n";
+            for (auto& a : s.post_args) meta += "postarg " + esc(a) + "\n";
             put("meta.txt", meta);
          }
          if (rr.detail[0]) std::printf("DETAIL %s\n", rr.detail);
